@@ -244,8 +244,8 @@ class Check:
         for d in self.drift:
             log("MODEL-DRIFT: property=%s %s" % (self.pid, d))
         rdir = os.path.join(REPLAYS, self.pid)
+        shutil.rmtree(rdir, ignore_errors=True)
         if self.violations:
-            shutil.rmtree(rdir, ignore_errors=True)
             os.makedirs(rdir, exist_ok=True)
         for n, v in enumerate(self.violations[:25]):
             p = os.path.join(rdir, "v%03d.json" % n)
